@@ -847,6 +847,12 @@ func init() {
 			}
 			rs.extra["known_findings_excluded_by_construction"] = len(rs.known)
 		}
+		// a hand-written file that happens to have the name of a derived file (tree.go next to tree_co.go): whatever the tool does,
+		// it must not destroy it ("creates, modifies or leaves behind nothing else")
+		if v := rs.runC16Clash(); v != nil {
+			rs.addViolation(v)
+		}
+		rs.eval("clash", true, "hand-written-file-with-derived-name")
 		n := rs.vol(10, 200)
 		var lays []c16Layout
 		k := 0
@@ -1304,4 +1310,56 @@ func init() {
 		}
 		rs.runDiff(par)
 	}}
+}
+
+// runC16Clash: package with tree.go (hand-written, no generated-code marker, declares the type the generator uses) and tree_co.go.
+// The derived file of tree_co.go would be tree.go. Accepted outcomes: the tool refuses (non-zero exit, every file untouched), or it
+// derives the file without losing the hand-written content (the package still builds with and without the tag). A tool that exits 0
+// and leaves a package that no longer builds has destroyed the hand-written file.
+func (rs *runState) runC16Clash() *violationT {
+	base := filepath.Join(rs.tools.scratch, "c16-clash")
+	defer func() {
+		if os.Getenv("VERIF_KEEP") == "" {
+			_ = os.RemoveAll(base)
+		}
+	}()
+	files := rs.tools.moduleFiles("vt")
+	files["pkg/tree.go"] = "package pkg\n\n// Tree is written by hand.\ntype Tree struct {\n\tL, R *Tree\n\tV    int\n}\n\nfunc Leaf(v int) *Tree { return &Tree{V: v} }\n"
+	files["pkg/tree_co.go"] = coHeader("package pkg\n\nimport . \"github.com/goghcrow/go-co\"\n\nfunc (t *Tree) Walk() Iter[int] {\n\tif t == nil {\n\t\treturn nil\n\t}\n\tif t.L != nil {\n\t\tYieldFrom(t.L.Walk())\n\t}\n\tYield(t.V)\n\tif t.R != nil {\n\t\tYieldFrom(t.R.Walk())\n\t}\n\treturn nil\n}\n")
+	root := filepath.Join(base, "m")
+	if err := writeFiles(root, files); err != nil {
+		rs.infraProblem(err.Error())
+		return nil
+	}
+	if r := runCmd(root, 5*time.Minute, nil, "go", "build", "-gcflags=-e", "-tags", "co", "./..."); r.code != 0 {
+		rs.infraProblem("C16 clash layout does not build with the co tag:\n" + lastLines(r.out, 20))
+		return nil
+	}
+	before := snapshot(base)
+	r := runCmd(filepath.Join(root, "pkg"), 3*time.Minute, []string{"GOFILE=tree_co.go", "GOPACKAGE=pkg"}, rs.tools.cogen)
+	after := snapshot(base)
+	mk := func(sig, what string) *violationT {
+		return &violationT{Kind: "layout", Signature: sig, What: what, Extra: map[string]any{"files": files}}
+	}
+	if r.code != 0 {
+		// refused: nothing may have changed
+		for k, h := range after {
+			if before[k] != h {
+				return mk("clash-refused-but-changed", fmt.Sprintf("cogen failed on a package with a hand-written tree.go next to tree_co.go and still changed %s", k))
+			}
+		}
+		for k := range before {
+			if _, ok := after[k]; !ok {
+				return mk("clash-refused-but-changed", fmt.Sprintf("cogen failed on a package with a hand-written tree.go next to tree_co.go and removed %s", k))
+			}
+		}
+		return nil
+	}
+	if b := runCmd(root, 5*time.Minute, nil, "go", "build", "./..."); b.code != 0 {
+		return mk("clash-overwritten", "cogen exited 0 on a package with a hand-written tree.go next to tree_co.go and the hand-written file is gone: "+lastLines(b.out, 4))
+	}
+	if b := runCmd(root, 5*time.Minute, nil, "go", "build", "-tags", "co", "./..."); b.code != 0 {
+		return mk("clash-overwritten", "cogen exited 0 on a package with a hand-written tree.go next to tree_co.go and the package no longer builds with the co tag: "+lastLines(b.out, 4))
+	}
+	return nil
 }
